@@ -68,10 +68,19 @@ impl PatternLinter for ModalOf {
     }
 
     fn match_to_lint(&self, matched_toks: &[Token], source_chars: &[char]) -> Option<Lint> {
-        let modal_index = match matched_toks.len() {
+        // The white space between two words can be more than one token (a space and a line
+        // break), so the words are counted, not the tokens.
+        let word_indices: Vec<usize> = matched_toks
+            .iter()
+            .enumerate()
+            .filter(|(_, tok)| tok.kind.is_word())
+            .map(|(index, _)| index)
+            .collect();
+
+        let (modal_index, of_index) = match word_indices.as_slice() {
             // Without context, always an error from the start
-            3 => 0,
-            5 => {
+            [modal, of] => (*modal, *of),
+            [_, modal, w3] => {
                 // False positives: modal _ of _ course / adj. _ might _ of / art. _ might _ of
                 let w3_text = matched_toks
                     .last()
@@ -89,14 +98,13 @@ impl PatternLinter for ModalOf {
                     return None;
                 }
                 // not a false positive, skip context before
-                2
+                (*modal, *w3)
             }
             // False positive: <word> _ might _ of _ course
-            7 => return None,
-            _ => unreachable!(),
+            _ => return None,
         };
 
-        let span_modal_of = matched_toks[modal_index..modal_index + 3].span().unwrap();
+        let span_modal_of = matched_toks[modal_index..=of_index].span().unwrap();
 
         let modal_have = format!(
             "{} have",
